@@ -101,7 +101,16 @@ func wcChild(a []string) string {
 		gl = &gateLogger{at: "listening"}
 		copts.Logger = gl
 	}
-	if scen == "errwriters" {
+	if scen == "handlerpanic" {
+		// a ReadHandler of the caller's that panics on the first data message (the caller of Listen recovers)
+		copts.ReadHandler = func(c ws.Connection, _ int, _ []byte, err error) error {
+			if err == nil && atomic.AddInt32(&handled, 1) == 1 {
+				panic("handler panicked")
+			}
+			return err
+		}
+	}
+	if scen == "errwriters" || scen == "listen3" {
 		// a ReadHandler that reports read errors to the caller of Listen but leaves the connection open
 		copts.ReadHandler = func(c ws.Connection, _ int, _ []byte, err error) error { return err }
 	}
@@ -281,6 +290,63 @@ func wcChild(a []string) string {
 		}
 		sort.Strings(ls)
 		extraListen = strings.Join(ls, "+")
+	case "listen3":
+		// Listen #1 has ended with a read error on a connection that stays open; Listen #2 is reading; Listen #3 arrives
+		startListen()
+		waitReading()
+		f.reads <- readRes{err: &net.OpError{Op: "read", Err: errors.New("connection reset")}}
+		select {
+		case <-listenRes:
+		case <-time.After(2 * time.Second):
+		}
+		l2 := make(chan string, 1)
+		go func() { l2 <- classifyErr(conn.Listen()) }()
+		waitReading()
+		l3 := make(chan string, 1)
+		go func() { l3 <- classifyErr(conn.Listen()) }()
+		select {
+		case r := <-l3:
+			extraListen = r
+		case <-time.After(100 * time.Millisecond):
+			extraListen = "admitted" // it is sitting in a read loop of its own
+		}
+		results = append(results, classifyErr(conn.Close()))
+		select {
+		case <-l2:
+		case <-time.After(2 * time.Second):
+		}
+		listenRes <- "nil"
+		listen = true
+	case "handlerpanic":
+		// the caller's ReadHandler panics on the first message and the caller of Listen recovers: the read loop is
+		// still there, reading; a second Listen must not be admitted beside it
+		go func() {
+			defer func() {
+				if p := recover(); p != nil {
+					listenRes <- "panic"
+				}
+			}()
+			listenRes <- classifyErr(conn.Listen())
+		}()
+		waitReading()
+		f.reads <- readRes{mt: websocket.BinaryMessage, p: []byte{1}}
+		select {
+		case r := <-listenRes:
+			listenRes <- r
+		case <-time.After(2 * time.Second):
+			listenRes <- "hang"
+		}
+		waitReading()
+		l2 := make(chan string, 1)
+		go func() { l2 <- classifyErr(conn.Listen()) }()
+		select {
+		case r := <-l2:
+			extraListen = r
+		case <-time.After(100 * time.Millisecond):
+			extraListen = "admitted"
+		}
+		results = append(results, classifyErr(conn.Close()))
+		listen = true
 	case "logclose":
 		// one Close runs from start to end while Listen is at its "listening" log line (between whatever it tested
 		// and whatever it is about to set); then Listen goes on
@@ -493,7 +559,9 @@ func init() {
 			case 5:
 				o.emit("C16", "WC", "listeners", itoa(int64(2+r.Intn(7))), "f", peers[r.Intn(2)], itoa(int64(i)))
 			case 7:
-				if r.Bool() {
+				if r.Chance(30) {
+					o.emit("C16", "WC", []string{"listen3", "handlerpanic"}[r.Intn(2)], "1", "f", "echo", itoa(int64(i)))
+				} else if r.Bool() {
 					o.emit("C15", "WC", "logclose", "1", "f", []string{"echo", "silent"}[r.Intn(2)], itoa(int64(i)))
 				} else {
 					o.emit("C16", "WC", "listenclose", "1", "t", "silent", itoa(int64(i)))
